@@ -471,7 +471,9 @@ func (s *SplitExp) BindingPath(bindPath string,
 	}
 	switch val := v.(type) {
 	case *NullExp:
-		return s.Value, nil
+		// Splitting null gives null, for this binding path and these
+		// forks; not the unresolved value.
+		return val, nil
 	case *MergeExp:
 		if i != nil && i.IndexSource() == nil {
 			if val.GetCall() != s.Call {
